@@ -18,18 +18,18 @@ external c_fileset_reload : nativeint -> unit = "vp_fileset_reload"
 external c_fileset_reload_now : nativeint -> unit = "vp_fileset_reload_now"
 
 let engine = "fs"
-let rule = "histories (length 4..30) over: rewrite the setfile (add/remove/replace names, relative and absolute lines, lines naming missing files and files that are not tables), create/delete table files, advance the clock (whole seconds + random nanoseconds, around the reload interval), mtbl_fileset_reload, mtbl_fileset_reload_now, open an iterator on a handle (iter, or get of a present / absent key), close an iterator (it is drained at that moment: pinned snapshot), dup a handle with other filename/reader filters and interval in {0, n, NEVER}, destroy handles. Observed: the set of tables every iterator returns. Non-trivial: history contains a setfile change followed by an open; distinct by history."
+let rule = "histories (length 4..30) over: rewrite the setfile (add/remove/replace names, relative and absolute lines, lines naming missing files and files that are not tables), create/delete table files, advance the clock (whole seconds + random nanoseconds, around the reload interval), mtbl_fileset_reload, mtbl_fileset_reload_now, open an iterator on a handle (iter, get of a present / absent key, get_prefix, get_range, iter or range followed by a seek), close an iterator (it is drained at that moment: pinned snapshot), dup a handle with other filename/reader filters and interval in {0, n, NEVER}, destroy handles. Observed: the set of tables every iterator returns. Non-trivial: history contains a setfile change followed by an open; distinct by history."
 
 type xop =
   | XSetFile of int list | XCreate of int * int (* name, table id; id < 0: not a table *) | XDelete of int
-  | XAdvance of int * int | XReload of int | XReloadNow of int | XOpen of int * int (* handle, 0 iter / 1 get hit / 2 get miss *)
+  | XAdvance of int * int | XReload of int | XReloadNow of int | XOpen of int * int (* handle, 0 iter / 1 get hit / 2 get miss / 3 get_prefix "x" / 4 get_range "x".."x" / 5 iter + seek "x" / 6 get_prefix "" / 7 get_range "a".."z" + seek "x" *)
   | XClose of int | XDup of int * int * int * int | XDestroy of int
 
 let xop_json = function
   | XSetFile l -> JL (JS "setfile" :: List.map (fun n -> JI n) l)
   | XCreate (n, t) -> JL [ JS "create"; JI n; JI t ] | XDelete n -> JL [ JS "delete"; JI n ]
   | XAdvance (s, ns) -> JL [ JS "advance"; JI s; JI ns ] | XReload h -> JL [ JS "reload"; JI h ] | XReloadNow h -> JL [ JS "reload_now"; JI h ]
-  | XOpen (h, k) -> JL [ JS "open"; JI h; JS (match k with 0 -> "iter" | 1 -> "get(x)" | _ -> "get(absent)") ]
+  | XOpen (h, k) -> JL [ JS "open"; JI h; JS (match k with 0 -> "iter" | 1 -> "get(x)" | 2 -> "get(absent)" | 3 -> "get_prefix(x)" | 4 -> "get_range(x,x)" | 5 -> "iter;seek(x)" | 6 -> "get_prefix()" | _ -> "get_range(a,z);seek(x)") ]
   | XClose i -> JL [ JS "close"; JI i ]
   | XDup (h, iv, nf, rf) -> JL [ JS "dup"; JI h; JI iv; JI nf; JI rf ] | XDestroy h -> JL [ JS "destroy"; JI h ]
 
@@ -94,7 +94,12 @@ let run_impl dir ~interval ~nf ~rf (ops : xop list) : child_end =
        | XReloadNow h -> c_fileset_reload_now !handles.(h)
        | XOpen (h, kind) ->
          let src = c_fileset_source !handles.(h) in
-         let it = (match kind with 0 -> Rd.c_source_iter src | 1 -> Rd.c_source_get src "x" | _ -> Rd.c_source_get src "absent-key") in
+         let it = (match kind with
+             | 0 -> Rd.c_source_iter src | 1 -> Rd.c_source_get src "x" | 2 -> Rd.c_source_get src "absent-key"
+             | 3 -> Rd.c_source_get_prefix src "x" | 4 -> Rd.c_source_get_range src "x" "x"
+             | 5 -> let it = Rd.c_source_iter src in if it <> 0n then ignore (Rd.c_iter_seek it "x"); it
+             | 6 -> Rd.c_source_get_prefix src ""
+             | _ -> let it = Rd.c_source_get_range src "a" "z" in if it <> 0n then ignore (Rd.c_iter_seek it "x"); it) in
          iters := Array.append !iters [| (it, kind, step) |]
        | XClose i ->
          let (it, kind, ostep) = !iters.(i) in
@@ -128,7 +133,7 @@ let gen_history st : int * int * int * xop list =
      | 4 | 5 -> add (XAdvance ((match rint st 4 with 0 -> 0 | 1 -> 1 | 2 -> rrange st 1 6 | _ -> rrange st 0 2), rint st 999999999))
      | 6 -> add (XReload (h ()))
      | 7 -> add (XReloadNow (h ()))
-     | 8 | 9 | 10 -> add (XOpen (h (), rint st 3)); open_iters := !niters :: !open_iters; incr niters
+     | 8 | 9 | 10 -> add (XOpen (h (), (if rint st 2 = 0 then rint st 3 else rint st 8))); open_iters := !niters :: !open_iters; incr niters
      | 11 -> (match !open_iters with [] -> () | l -> let i = List.nth l (rint st (List.length l)) in add (XClose i); open_iters := List.filter (fun x -> x <> i) l)
      | 12 -> if !nh < 4 then begin
          add (XDup (h (), (match rint st 3 with 0 -> 0 | 1 -> rrange st 1 4 | _ -> 0xFFFFFFFF), rint st 3, (if rint st 4 = 0 then rrange st 1 2 else 0)));
@@ -205,6 +210,10 @@ let run ~tier ~seed ~only acc =
     (* a table stays loaded over several reloads of a changing setfile and is dropped later *)
     (0, 0, 0, [ XCreate (1, 1); XCreate (2, 2); XCreate (3, 3); XSetFile [ 1; 2 ]; XOpen (0, 0); XClose 0; XSetFile [ 1; 2; 3 ]; XAdvance (2, 0); XReloadNow 0; XOpen (0, 0); XClose 1;
                 XSetFile [ 1; 3 ]; XAdvance (2, 0); XReloadNow 0; XOpen (0, 0); XClose 2; XSetFile [ 3 ]; XAdvance (2, 0); XReloadNow 0; XOpen (0, 0); XClose 3; XDestroy 0 ]);
+    (* every iterator kind on two handles, a reload requested while they are open, and again after they closed *)
+    (0, 0, 0, [ XCreate (1, 1); XCreate (2, 2); XSetFile [ 1; 2 ]; XDup (0, 0, 0, 0); XOpen (0, 3); XOpen (1, 4); XOpen (0, 5); XOpen (1, 6); XOpen (0, 7);
+                XCreate (3, 3); XSetFile [ 2; 3 ]; XAdvance (2, 0); XReloadNow 1; XOpen (1, 3); XClose 0; XClose 1; XClose 2; XClose 3; XClose 4; XClose 5;
+                XOpen (0, 4); XOpen (1, 7); XClose 6; XClose 7; XDestroy 0; XDestroy 1 ]);
   ] in
   List.iter (fun c -> if want () then check acc ~klass:"directed" c; incr idx) directed;
   let n = if tier = "thorough" then 4000 else 500 in
